@@ -24,6 +24,10 @@ CHECKS = {
          "41 generators (every record type incl. SVCB/HTTPS with every SvcParam, IPSECKEY gateways, OPT, unknown types; several constructors per type), full product of per-field boundary menus (u8/u16/u32 boundaries, 4+ names incl. 255 octets, octet fields empty/1/255/type maximum/maximum+1, bitmaps, charstrs): 53 k values quick, 802 k thorough. Per value: compose_rdata == reference encoding written from the RFC layouts; rdlen/compose_len == octets written; canonical form lower-cases exactly the RFC 4034 6.2 + RFC 6840 5.1 names (table in the harness); parse(compose(v)) == v stand-alone, via ZoneRecordData, and in six message configurations (plain/Static/Tree/Hash compressor x names already present or not) where the independent reader checks RDLENGTH and that only RFC 3597 s.4 types carry pointers. 65 byte grammars (every internal length short/exact/long, names literal/pointer/bad): accepted RDATA must satisfy parse(compose(parse(b))) == parse(b). Every EDNS option through OptBuilder/AllOptData.",
          "Constructor refusals are expected results; values whose RDATA leaves no room for header+owner skip the message check; compose(parse(b)) == b is not demanded.",
          "gramx", "DESIGN.md §3 C05"),
+ "C07": ("exploration", "exhaustive enumeration of byte strings and token strings (totality) and of all layout renderings of small logical zone files (metamorphic relation) through the real zone-file reader",
+         "Totality: every byte string over 14 symbols to length 5 (quick) / 6 (thorough) behind 5 context prefixes, and every string over 26 tokens to depth 5/6 behind 3 prefixes, read to the end with next_entry under catch_unwind and a hang watchdog; an error must carry an in-range position, every returned record must be well-formed wire, a second reader (allow_invalid) must agree. Layout independence: every rendering of every logical file of 1-2 (thorough 3) records from per-slot menus (owner absolute/relative/escaped/inherited, class/TTL explicit/inherited/$TTL in both orders, separators, parenthesised continuations at every token gap, comments/blank lines/CRLF, quoted vs escaped tokens, $ORIGIN changes); a reference interpreter in the harness (RFC 1035 5.1, RFC 2308 4) prunes renderings whose meaning differs; the reader must return exactly the logical records (hand-encoded wire).",
+         "Quoted domain names, escaped class/type words and files without final newline are not in the rewrite relation (RFC 1035 leaves them open); thorough token depth is 6.",
+         "gramx", "DESIGN.md §3 C07"),
  "C08": ("model_checking", "exhaustive enumeration of all zone contents x all histories of fixed shapes x all queries on the real in-memory zone, independent RFC 1034/4592 resolver as oracle",
          "All 2,624 zone contents over a 7-name tree (apex, a, b.a, *.a, c, d.c, *) with kinds none/A/TXT/A+TXT/CNAME/NS/NS+DS(+glue), reached through every history shape: ZoneBuilder in two insertion orders, parsed::Zonefile, ZoneUpdater full replacement from a bare and from a busy zone, write interface from a bare zone and via remove_all, and from every single-slot neighbour content a ZoneUpdater edit, a write-interface edit, and a write-interface edit after an abandoned (rolled back) attempt; every (qname,qtype) over 16 names x 6 types plus walk() is compared with a reference resolver written over plain data (exact/CNAME/NODATA incl. ENT/referral with NS, DS, glue/wildcard synthesis/NXDOMAIN, SOA in negative answers, AA).",
          "HashMap order not owned (set comparison, no qtype ANY); CNAMEs are not chased; updater histories run over contents without NS/DS/CNAME because the updater has no cut/CNAME notion (known finding, witnessed); history-dependent mismatches are classified by structural cause and only the listed causes with their implied symptom are known findings.",
